@@ -141,7 +141,16 @@ class BaseFileWriterSession(BaseWriterSession):
             _logger.exception('Failed to parse date.')
             return
 
-        last_modified = time.mktime(last_modified)
+        if not last_modified:
+            # parsedate() returns None for a value it cannot parse
+            _logger.debug('Failed to parse date.')
+            return
+
+        try:
+            last_modified = time.mktime(last_modified)
+        except (ValueError, OverflowError):
+            _logger.exception('Failed to convert date.')
+            return
 
         os.utime(filename, (time.time(), last_modified))
 
